@@ -195,6 +195,17 @@ def ref_trace(ops):
     return done
 
 
+def rev_abs(ap):
+    """time reversal in the reference model's vocabulary: the actions in the opposite order, every waypoint list reversed, on <-> off"""
+    out = []
+    for a in reversed(ap):
+        if a[0] == "W":
+            out.append(("W", list(reversed(a[1]))))
+        else:
+            out.append(("S", "off" if a[1] == "on" else "on") + tuple(a[2:]))
+    return out
+
+
 def concrete_path(apath):
     """abstract path (the reference model's vocabulary) -> the library's action objects"""
     from kirin.dialects import ilist
